@@ -250,16 +250,16 @@ def ivLoop {ρ : Type} (iv : Option (Int × Int)) (l : Fib Int ρ) : Fib Int ρ 
 
 /-- the start-position assertions of `project` (forward path):
     `start_pos < len(coords)` and, with an interval,
-    `start_pos == 0 or coords[start_pos - 1] < interval[0]`
-    (as written: a *source* coordinate compared with the *target* interval) -/
-def projStartOk (iv : Option (Int × Int)) (sp : Option Nat) (f : Fib Int π) : Bool :=
+    `start_pos == 0 or trans_fn(coords[start_pos - 1]) < interval[0]`
+    (the skipped coordinate is compared in the interval's own, projected, coordinates) -/
+def projStartOk (k m : Int) (iv : Option (Int × Int)) (sp : Option Nat) (f : Fib Int π) : Bool :=
   match sp with
   | none => true
   | some i => decide (i < f.length) &&
     (match iv with
      | none => true
      | some (lo, _) => i == 0 || (match f[i - 1]? with
-        | some x => decide (x.1 < lo)
+        | some x => decide (k * x.1 + m < lo)
         | none => false))
 
 /-- the reversed wrapper: `Fiber.fromIterator(reversed_iterator, default=self.getDefault())`
@@ -284,7 +284,7 @@ def projectRaw (emp : π → Bool) (mk : π) (cfg : Cfg) (k m : Int) (iv : Optio
     -- `assert not fiber.isLazy()` when a start position is given
     if sp.isSome then .error .assertion
     else .ok (ivLoop iv (transF k m (revInner emp f)))
-  else if !projStartOk iv sp f then .error .assertion
+  else if !projStartOk k m iv sp f then .error .assertion
   else .ok (ivLoop iv (transF k m (iterDefault emp mk cfg sp f)))
 
 /-- `for c, p in f.project(…)` (resp. `.iterRange(os, oe)` of the result) -/
